@@ -42,10 +42,7 @@ def scenario(h, sc: int):
         t.add_class("d").add_class("e", prepend=True).remove_class("b").add_style("k:v;")
         return [str(t), list(t.attrs.keys())]
     if sc == 3:
-        x = h.TagList(dep("m", "1.0"), h.Tag("br"), h.Tag("hr", dep("n", "1.0")), h.Tag("script", "a<b"), h.Tag("style", "x>y"), "t&", dep("o", "3"),
-                      dep("w", "1.0", source={"subdir": "w"},
-                          script=[{"src": "w.js", "type": "module", "crossorigin": "anonymous", "integrity": "sha-x", "defer": ""}],
-                          stylesheet=[{"href": "w.css", "media": "print", "title": "t", "hreflang": "en"}]))
+        x = h.TagList(dep("m", "1.0"), h.Tag("br"), h.Tag("hr", dep("n", "1.0")), h.Tag("script", "a<b"), h.Tag("style", "x>y"), "t&", dep("o", "3"))      # exactly three names
         r = x.render()
         return [r["html"], [d.name for d in r["dependencies"]]]
     if sc == 4:
